@@ -192,3 +192,6 @@ def run(ctx):
                        % ' and '.join(x for x, ok in (('the reference type', ty), ('the target node', tg)) if not ok), loc=b.loc)
     r.count('index_mutations', n)
     r.floor('insert-keys', 'index_mutations', n, 12)
+    # node deletion keeps the two maps in step as well (rule shared with C29)
+    from .C29 import cleanup_complete
+    cleanup_complete(ctx)
